@@ -156,3 +156,19 @@ CONTRACTS.append(Contract(
     raises={'TypeError': Raises(post=[('only-for-a-wrong-type',
                                        'not isinstance(objectname, (str, CIMClassName, CIMInstanceName)) and objectname is not None')])},
 ))
+
+
+# ---- the operation shells under contract in contracts/C19.py / C19_ops.py (34 public operations) are shared here:
+# unmarshalling: the result of every operation carries the effective target namespace / the path the caller named (mechanism 'per-operation unmarshalling and path fix-up').
+import importlib.util as _ilu2
+import os as _os2
+import sys as _sys2
+_sp = _ilu2.spec_from_file_location('contracts_C19', _os2.path.join(_os2.path.dirname(_os2.path.abspath(__file__)), 'C19.py'))
+_c19 = _ilu2.module_from_spec(_sp)
+_sys2.modules['contracts_C19'] = _c19
+_sp.loader.exec_module(_c19)
+_sys2.modules['contracts_C19_shared'] = _c19
+CONTRACTS.extend(c for c in _c19.CONTRACTS if c.key.startswith('pywbem/_cim_operations.py::WBEMConnection.'))
+CLASS_SPECS = dict(globals().get('CLASS_SPECS', {}))
+for _k, _v in _c19.CLASS_SPECS.items():
+    CLASS_SPECS.setdefault(_k, {}).update(_v)
